@@ -70,3 +70,37 @@ refactor("c09-continuation-list-as-matches",
          [(L, "            if let Some(t) = last_token {\n                match t {",
               "            if let Some(t) = last_token {\n                #[allow(clippy::match_like_matches_macro)]\n                match t {")],
          note="attribute only")
+
+# ---- C07 ---------------------------------------------------------------------
+mutant("c07-for-continue-breaks",
+       [(E, "                    Escape::Break{..} => break,\n                    Escape::Continue{..} => continue,\n                    Escape::Return{..} => return Ok(escape),\n                }\n            }\n        },\n\n        Stmt::Break{loc} => {",
+            "                    Escape::Break{..} => break,\n                    Escape::Continue{..} => break,\n                    Escape::Return{..} => return Ok(escape),\n                }\n            }\n        },\n\n        Stmt::Break{loc} => {")],
+       [("C07", "R07.2")])
+mutant("c07-while-swallows-return",
+       [(E, "                    Escape::Continue{..} => continue,\n                    Escape::Return{..} => return Ok(escape),\n                }\n            }\n        },\n\n        Stmt::For",
+            "                    Escape::Continue{..} => continue,\n                    Escape::Return{..} => break,\n                }\n            }\n        },\n\n        Stmt::For")],
+       [("C07", "R07.2")])
+mutant("c07-else-drops-escape",
+       [(E, "                let v = eval_stmts_in_new_scope(context, scopes, stmts)\n                    .context(EvalElseStatementsFailed)?;\n\n                return Ok(v);",
+            "                eval_stmts_in_new_scope(context, scopes, stmts)\n                    .context(EvalElseStatementsFailed)?;")],
+       [("C07", "R07.1")])
+mutant("c07-sequence-continues-after-break",
+       [(E, "        match v {\n            Escape::None => {},\n            _ => return Ok(v),\n        }",
+            "        match v {\n            Escape::None | Escape::Continue{..} => {},\n            _ => return Ok(v),\n        }")],
+       [("C07", "R07.3")])
+mutant("c07-call-break-is-null",
+       [(E, "                            Escape::Break{loc: (line, col)} =>\n                                Err(Error::AtLoc{\n                                    source: Box::new(Error::BreakOutsideLoop),\n                                    line,\n                                    col,\n                                }),",
+            "                            Escape::Break{..} =>\n                                Ok(value::new_null()),")],
+       [("C07", "R07.4")])
+mutant("c07-for-recomputes-pairs",
+       [(E, "            for (key, value) in pairs {\n                let pair = value::new_list(vec![key, value]);",
+            "            for (i, _) in pairs.iter().enumerate() {\n                let cur_val = eval_expr(context, scopes, iter)\n                    .context(EvalForIterFailed)?;\n                let cur = value_to_pairs(&cur_val.v)\n                    .context(ConvertForIterToPairsFailed)?;\n                if i >= cur.len() { break; }\n                let (key, value) = cur[i].clone();\n                let pair = value::new_list(vec![key, value]);")],
+       [("C07", "R07.6")])
+mutant("c07-prog-return-ok",
+       [(E, "        Escape::Return{loc, ..} => {\n            let (line, col) = loc;\n\n            Err(Error::AtLoc{\n                source: Box::new(Error::ReturnOutsideFunction),\n                line,\n                col,\n            })\n        },",
+            "        Escape::Return{..} => Ok(()),")],
+       [("C07", "R07.5")])
+refactor("c07-while-as-loop-with-early-continue",
+         [(E, "                match escape {\n                    Escape::None => {},\n                    Escape::Break{..} => break,\n                    Escape::Continue{..} => continue,\n                    Escape::Return{..} => return Ok(escape),\n                }\n            }\n        },\n\n        Stmt::For",
+              "                if let Escape::Break{..} = escape {\n                    break;\n                }\n                if let Escape::Return{..} = escape {\n                    return Ok(escape);\n                }\n            }\n        },\n\n        Stmt::For")],
+         note="same table written with if-lets")
